@@ -71,6 +71,35 @@ def cases(tier, seed):
         parts += [fmt_q(al), junk(n) if al == 0 else fmt_vec(w)]
         add("d.lin_comb", " ".join(parts))
         add("d.inner", " ".join([fmt_vec(u), fmt_vec(v)]))
+    # --- other backends: block_crs (any block size, sizes not divisible), hybrid (block-valued
+    #     matrix, scalar vectors), Eigen; all must equal the scalar model.  Rows have distinct
+    #     columns (the block converters overwrite duplicates) ---
+    def drows(n, m, mx=4):
+        return [[(c, dq(True)) for c in sorted(r.sample(range(m), r.randint(0, min(m, mx))))] for _ in range(n)]
+    for it in range(N // 2):
+        b = r.choice([1, 2, 3, 4, 5])
+        n = r.choice([1, 2, 3, 4, 5, 6, 7, 9, 10, 13]); m = r.choice([n, n, n + 1, max(1, n - 1), n + 3])
+        rows = drows(n, m)
+        A = fmt_crs(n, m, rows); x = dvec(m); y = dvec(n); f = dvec(n)
+        al, be_ = dcoef(), dcoef()
+        yy = junk(n) if be_ == 0 else fmt_vec(y)
+        for pfx in ("", "d."):
+            yq = fmt_vec(y) if (pfx == "" and be_ == 0) else yy     # junk tokens only in the double build
+            add(pfx + "bcrs.spmv", " ".join([str(b), fmt_q(al), A, fmt_vec(x), fmt_q(be_), yq]))
+            add(pfx + "bcrs.residual", " ".join([str(b), fmt_vec(f), A, fmt_vec(x), fmt_vec(y) if pfx == "" else junk(n)]))
+        add("eig_spmv", " ".join([fmt_q(al), A, fmt_vec(x), fmt_q(be_), yy]))
+        add("eig_residual", " ".join([fmt_vec(f), A, fmt_vec(x), junk(n)]))
+        a, bq, c = dcoef(), dcoef(), dcoef()
+        u, v, w = dvec(n), dvec(n), dvec(n)
+        add("eig_vec", " ".join(["axpby", fmt_q(a), fmt_vec(u), fmt_q(bq), junk(n) if bq == 0 else fmt_vec(v)]))
+        add("eig_vec", " ".join(["axpbypcz", fmt_q(a), fmt_vec(u), fmt_q(bq), fmt_vec(v), fmt_q(c), junk(n) if c == 0 else fmt_vec(w)]))
+        add("eig_vec", " ".join(["vmul", fmt_q(a), fmt_vec(u), fmt_vec(v), fmt_q(bq), junk(n) if bq == 0 else fmt_vec(w)]))
+        add("eig_vec", " ".join(["inner", fmt_vec(u), fmt_vec(v)]))
+        # hybrid: dimensions divisible by the block size
+        bh = r.choice([2, 3, 4]); nb = r.choice([1, 2, 3]); nh = bh * nb
+        rows = drows(nh, nh, mx=5); Ah = fmt_crs(nh, nh, rows); xh = dvec(nh); yh = dvec(nh)
+        add("hyb_spmv", " ".join([str(bh), fmt_q(al), Ah, fmt_vec(xh), fmt_q(be_), junk(nh) if be_ == 0 else fmt_vec(yh)]))
+        add("hyb_residual", " ".join([str(bh), fmt_vec(dvec(nh)), Ah, fmt_vec(xh), junk(nh)]))
     return out
 
 def run(ctx, cases_override=None):
